@@ -151,12 +151,21 @@ def tainted_config(cls, data):
             funcs.append(callee)
     tainted = {}
 
-    def mentions_data(expr):
+    def mentions_data(expr, depth=0):
         for n in ast.walk(expr):
             if isinstance(n, ast.Attribute) and isinstance(n.value, ast.Name) and n.value.id == "self" and n.attr in data:
                 return "self." + n.attr
             if isinstance(n, ast.Name) and n.id in DATA_PARAMS:
                 return n.id
+            # the value comes out of a helper of the class: what the helper returns (and tests on the way) counts
+            if depth < 2 and isinstance(n, ast.Call) and isinstance(n.func, ast.Attribute) and isinstance(n.func.value, ast.Name) and n.func.value.id == "self":
+                g = cls.lookup(n.func.attr)
+                if g is not None and g.name != "_compute_all":
+                    for x in ast.walk(g.node):
+                        if isinstance(x, ast.Return) and x.value is not None:
+                            d_ = mentions_data(x.value, depth + 1)
+                            if d_:
+                                return d_ + " (through %s)" % g.qname
         return None
 
     def walk(stmts, ctrl, f):
